@@ -475,7 +475,7 @@ def eval_text_case(markup, enc, width, wrap, align):
     return True, detail
 
 
-QUICK_FAMILIES = ("distinct", "alternate-untagged", "tail-untagged", "nested-3", "inner-None", "falsy-names", "empty-tagged-middle", "empty-untagged-middle")
+QUICK_FAMILIES = ("distinct", "alternate-untagged", "tail-untagged", "nested-3", "inner-None", "falsy-names", "empty-tagged-middle")
 LONG_FAMILIES = ("distinct", "alternate-untagged", "nested-3", "empty-tagged-middle")
 
 
@@ -530,7 +530,7 @@ def text_plan(tier):
     """(encoding, bytes text?, exhaustive length, all-families length, number of seeded longer texts)"""
     if tier == "quick":
         return [("utf-8", False, 3, 3, 40), ("utf-8", True, 2, 2, 15), ("iso8859-1", False, 2, 2, 15), ("euc-jp", False, 2, 2, 10)]
-    return [("utf-8", False, 4, 3, 3000), ("utf-8", True, 3, 3, 800), ("iso8859-1", False, 4, 3, 800), ("euc-jp", False, 4, 3, 500)]
+    return [("utf-8", False, 4, 3, 1200), ("utf-8", True, 3, 3, 400), ("iso8859-1", False, 4, 3, 400), ("euc-jp", False, 4, 3, 250)]
 
 
 def text_scope(tier, r):
@@ -539,8 +539,11 @@ def text_scope(tier, r):
         alphabet = ENC_CLASSES[enc]
         if as_bytes and enc != "utf-8":
             alphabet = alphabet.replace("d", "")
+        # quick tier: in UTF-8 a line-drawing character is just one more 3-byte narrow character (class e has
+        # the 2-byte ones), so the exhaustive part leaves it to the seeded texts and to iso8859-1
+        full_alphabet = alphabet.replace("d", "") if (tier == "quick" and enc == "utf-8") else alphabet
         seen = set()
-        for s in class_strings(alphabet, full_len):
+        for s in class_strings(full_alphabet, full_len):
             seen.add(s)
             yield enc, as_bytes, s, len(s) > fam_len
         cnt = 0
@@ -622,6 +625,8 @@ def run_text_checks(tier, r):
     else:
         parts = [_text_task(t) for t in tasks]
     plan = "; ".join(f"{e} {'bytes' if b else 'str'}: all class strings of length <= {fl} (all markup families up to length {ml}) + {nr} seeded of length <= 7" for e, b, fl, ml, nr in text_plan(tier))
+    if quick:
+        plan += " (quick tier: class d only in the seeded UTF-8 texts and in iso8859-1; 7 of the 16 markup families)"
     skipped = {}
     for _t, sk in parts:
         for k, v in sk.items():
